@@ -898,8 +898,13 @@ func ensureServiceTxn(tx WriteTxn, idx uint64, node string, preserveIndexes bool
 			service = svc.Proxy.DestinationServiceName
 		}
 		sn := structs.ServiceName{Name: service, EnterpriseMeta: svc.EnterpriseMeta}
-		if err = checkGatewayWildcardsAndUpdate(tx, idx, &sn, svc, structs.GatewayServiceKindService); err != nil {
-			return fmt.Errorf("failed updating gateway mapping: %s", err)
+		// gateway-services / mesh-topology describe the LOCAL cluster's gateways; an imported
+		// (peered) proxy must not associate a local service name with local wildcard gateways
+		// (the matching cleanup in deleteServiceTxn is already limited to local services).
+		if svc.PeerName == "" {
+			if err = checkGatewayWildcardsAndUpdate(tx, idx, &sn, svc, structs.GatewayServiceKindService); err != nil {
+				return fmt.Errorf("failed updating gateway mapping: %s", err)
+			}
 		}
 
 		if svc.PeerName == "" && sn.Name != "" {
